@@ -15,7 +15,7 @@ META = {
     ),
     "floors": {
         "quick": {"evaluations": 100000, "mon.dist": 100000, "mon.mask_roundtrip": 5000, "mon.insitu_dist": 2000},
-        "thorough": {"evaluations": 2000000, "mon.dist": 2000000, "mon.mask_roundtrip": 50000, "mon.insitu_dist": 20000},
+        "thorough": {"evaluations": 2000000, "mon.dist": 2000000, "mon.mask_roundtrip": 50000, "mon.insitu_dist": 10000},
     },
     "exhaustive": {"quick": True, "thorough": True},
     "space": {"quick": "all non-empty child masks x parent masks up to 8 bits x both end modes; all sequences up to length 8 (all orders up to length 5) and all subsequences", "thorough": "all mask pairs up to 10 bits x both modes (2.1M); all sequences up to length 9 (distinct elements, 3 alphabets) and all subsequences"},
@@ -116,6 +116,12 @@ def run(ctx, spec):
                 perms = [tuple(alpha[:L])] + ([tuple(reversed(alpha[:L]))] if L > 1 else [])
                 if L <= 5:
                     perms = list(itertools.permutations(alpha[:L]))
+                else:
+                    prng = ctx.rng("perms", L, ai)
+                    for _ in range(2 if ctx.tier == "quick" else 12):
+                        q = list(alpha[:L])
+                        prng.shuffle(q)
+                        perms.append(tuple(q))
                 for pi, parent in enumerate(perms):
                     if (pi + ai) % spec["n"] != spec["i"]:
                         continue
